@@ -3,6 +3,8 @@ package rules
 import (
 	"fmt"
 	"go/ast"
+	"go/token"
+	"go/types"
 	"strings"
 
 	"verif/wscheck/internal/fold"
@@ -702,36 +704,107 @@ func responseWriterRules(c *Ctx, prop string) {
 	}
 	var problems []string
 	pairs := 0
-	if syn, ok := fe.Syntax().(*ast.FuncDecl); ok {
-		ast.Inspect(syn, func(n ast.Node) bool {
-			cc, ok := n.(*ast.CaseClause)
-			if !ok || len(cc.List) != 1 || len(cc.Body) != 1 {
-				return true
-			}
-			errID, ok := cc.List[0].(*ast.Ident)
-			if !ok || !strings.HasPrefix(errID.Name, "Err") {
-				return true
-			}
-			es, ok := cc.Body[0].(*ast.ExprStmt)
+	used := map[string]bool{}
+	recognised := map[*ast.Ident]bool{}
+	// pair records "under the guard err == errName the text variable textID is written"
+	pair := func(errName string, body ast.Node) {
+		ast.Inspect(body, func(n ast.Node) bool {
+			call, ok := n.(*ast.CallExpr)
 			if !ok {
 				return true
 			}
-			call, ok := es.X.(*ast.CallExpr)
-			if !ok || len(call.Args) != 1 {
-				return true
-			}
-			arg, ok := call.Args[0].(*ast.Ident)
-			if !ok {
-				return true
-			}
-			pairs++
-			if src, known := tailOf[arg.Name]; known && src != errID.Name {
-				problems = append(problems, fmt.Sprintf("case %s writes %s, which is the text of %s", errID.Name, arg.Name, src))
-			} else if !known {
-				problems = append(problems, fmt.Sprintf("case %s writes %s, which is not generated by errorText", errID.Name, arg.Name))
+			for _, a := range call.Args {
+				arg, ok := a.(*ast.Ident)
+				if !ok {
+					continue
+				}
+				src, known := tailOf[arg.Name]
+				if !known {
+					continue
+				}
+				pairs++
+				used[arg.Name] = true
+				recognised[arg] = true
+				if src != errName {
+					problems = append(problems, fmt.Sprintf("case %s writes %s, which is the text of %s", errName, arg.Name, src))
+				}
 			}
 			return true
 		})
+	}
+	errIdent := func(e ast.Expr) string {
+		if id, ok := e.(*ast.Ident); ok && strings.HasPrefix(id.Name, "Err") {
+			return id.Name
+		}
+		return ""
+	}
+	// the dispatch may be a switch, an if chain or a table, in any function of the package
+	for _, file := range pk.Syntax {
+		ast.Inspect(file, func(n ast.Node) bool {
+			switch x := n.(type) {
+			case *ast.CaseClause:
+				if len(x.List) == 1 {
+					if en := errIdent(x.List[0]); en != "" {
+						for _, st := range x.Body {
+							pair(en, st)
+						}
+					}
+				}
+			case *ast.IfStmt:
+				if be, ok := x.Cond.(*ast.BinaryExpr); ok && be.Op == token.EQL {
+					en := errIdent(be.Y)
+					if en == "" {
+						en = errIdent(be.X)
+					}
+					if en != "" {
+						pair(en, x.Body)
+					}
+				}
+			case *ast.KeyValueExpr:
+				if en := errIdent(x.Key); en != "" {
+					if v, ok := x.Value.(*ast.Ident); ok {
+						if src, known := tailOf[v.Name]; known {
+							pairs++
+							used[v.Name] = true
+							recognised[v] = true
+							if src != en {
+								problems = append(problems, fmt.Sprintf("table entry %s maps to %s, which is the text of %s", en, v.Name, src))
+							}
+						}
+					}
+				}
+			}
+			return true
+		})
+		// every other use of a precomputed text is outside a recognised dispatch
+		ast.Inspect(file, func(n ast.Node) bool {
+			if vs, ok := n.(*ast.ValueSpec); ok {
+				for _, v := range vs.Values {
+					ast.Inspect(v, func(m ast.Node) bool {
+						if id, ok := m.(*ast.Ident); ok {
+							recognised[id] = true
+						}
+						return true
+					})
+				}
+				for _, nm := range vs.Names {
+					recognised[nm] = true
+				}
+			}
+			if id, ok := n.(*ast.Ident); ok && !recognised[id] {
+				if _, known := tailOf[id.Name]; known {
+					if _, isVar := pk.TypesInfo.Uses[id].(*types.Var); isVar {
+						problems = append(problems, fmt.Sprintf("undecided: %s is used at %s outside a recognised dispatch on the error value", id.Name, c.P.Pos(id.Pos())))
+					}
+				}
+			}
+			return true
+		})
+	}
+	for t, e := range tailOf {
+		if !used[t] {
+			problems = append(problems, fmt.Sprintf("the precomputed text %s of %s is never written", t, e))
+		}
 	}
 	if pairs < 5 {
 		problems = append(problems, fmt.Sprintf("undecided: only %d error/text pairs recognised in httpWriteResponseError", pairs))
